@@ -884,7 +884,27 @@ impl World {
                 };
                 let prev = self.log.begin_poll(Task::Handler(j));
                 let mut cx = Context::from_waker(&waker);
-                let r = catch_unwind(AssertUnwindSafe(|| f.as_mut().poll(&mut cx)));
+                // like tokio's task harness: if the poll panics, the task's future is dropped WHILE the
+                // thread is unwinding (a guard inside the catch_unwind), not afterwards
+                struct DropOnUnwind<'a>(&'a mut Option<HFut>);
+                impl Drop for DropOnUnwind<'_> {
+                    fn drop(&mut self) {
+                        if std::thread::panicking() {
+                            drop(self.0.take());
+                        }
+                    }
+                }
+                let mut slot: Option<HFut> = Some(f);
+                let r = catch_unwind(AssertUnwindSafe(|| {
+                    let g = DropOnUnwind(&mut slot);
+                    let r = g.0.as_mut().unwrap().as_mut().poll(&mut cx);
+                    std::mem::forget(g);
+                    r
+                }));
+                let dropped_while_unwinding = slot.is_none();
+                let f: HFut = slot.unwrap_or_else(|| Box::pin(async {}));
+                let mut f = f;
+                let _ = dropped_while_unwinding;
                 match r {
                     Ok(Poll::Pending) => {
                         self.log.end_poll(Task::Handler(j), prev, false);
